@@ -393,6 +393,11 @@ def _construct(d, payload=None):
     cols = _cols_for_rows(d["rows"])
     data = [[names[k], None if p is None else names[p]] + [a.get(c) for c in cols] for k, p, a in d["rows"]]
     from props._e_util import odd_index
+    import zlib
+    if zlib.crc32(repr(data).encode()) % 3 == 1:
+        # the relation columns named explicitly and placed last (a function of the case)
+        df = pd.DataFrame([r[2:] + [r[1], r[0]] for r in data], columns=cols + ["parent", "child"])
+        return bigtree.dataframe_to_dag(odd_index(df, data), child_col="child", parent_col="parent")
     return bigtree.dataframe_to_dag(odd_index(pd.DataFrame(data, columns=["child", "parent"] + cols), data))
 
 
